@@ -62,6 +62,8 @@ class Monitor:
         self.steps_in = []       # (sid, tt, inputs, event index) judged in finish()
         self.n_begun = 0
         self.async_pending = collections.defaultdict(dict)   # dst sid -> {(attr, src_full): val}
+        self.async_optional = collections.defaultdict(dict)  # ... of refused multi-destination calls
+        self.async_sent = {}                                 # value -> time of the sender's step
         self.async_delivered = set()
         self.finalized = collections.Counter()
         self.faulted = None
@@ -84,6 +86,8 @@ class Monitor:
             self.on_step_ret(ev)
         elif k == "D":
             self.on_data(ev)
+        elif k == "AS2":
+            self.on_async_set2(ev)
         elif k == "AS":
             self.on_async_set(ev)
         elif k == "AG":
@@ -454,10 +458,30 @@ class Monitor:
         ok = self._async_allowed(sid, dst)
         self.last_async = getattr(self, "last_async", {})
         self.last_async[sid] = ("set", ok, dst_full)
+        self.async_sent[val] = t
         if ok:
             self.async_pending[dst][(attr, f"{sid}.e")] = val
         else:
             self.async_pending["!refused"][(dst, attr, f"{sid}.e")] = val
+
+    def on_async_set2(self, ev):
+        """one set_data call with several destinations: refused as a whole if any destination
+        has no async_requests connection; what the allowed destinations named before the first
+        forbidden one then hold is unspecified (they may or may not have received the value)"""
+        _, sid, k, t, dsts, attr, val = ev
+        dsts = json.loads(dsts)
+        oks = [self._async_allowed(sid, d.split(".")[0]) for d in dsts]
+        self.last_async = getattr(self, "last_async", {})
+        self.last_async[sid] = ("set", all(oks), ",".join(dsts))
+        self.async_sent[val] = t
+        for d, ok in zip(dsts, oks):
+            dst = d.split(".")[0]
+            if all(oks):
+                self.async_pending[dst][(attr, f"{sid}.e")] = val
+            elif ok:
+                self.async_optional[dst][(attr, f"{sid}.e")] = val
+            else:
+                self.async_pending["!refused"][(dst, attr, f"{sid}.e")] = val
 
     def _async_allowed(self, requester, target):
         return any(c.get("async") and c["src"] == target and c["dst"] == requester
@@ -486,9 +510,20 @@ class Monitor:
     def check_async_inputs(self, sid, tt, gset):
         exp = dict(self.async_pending.get(sid, {}))
         self.async_pending[sid] = {}
+        opt = self.async_optional.pop(sid, {})
+        for key, v in opt.items():       # part of a refused multi-destination call: optional
+            if gset.get(key) == v and key not in exp:
+                exp[key] = v
         if gset != exp:
             self.add("C16", "set-data-delivery",
                      f"{sid}@{tt} received set_data values {gset} expected {exp}", sim=sid)
+        for key, v in gset.items():
+            ts = self.async_sent.get(v)
+            if ts is not None and ts >= tt[0]:
+                # "delivered in A's NEXT step": a step later than the sender's step
+                self.add("C16", "set-data-delivered-too-early",
+                         f"{sid}@{tt} received {v}, which was sent during a step at time {ts}",
+                         sim=sid)
 
     # ------------------------------------------------------------------------
     def expected_loop_error(self):
